@@ -7,6 +7,8 @@ spec/Tokens.tla        interaction-line tokeniser, operational = structural defi
 spec/AtomPrefix.tla    prefix <-> order normalisation of link atoms, operational = declarative
 spec/ItpPragma.tla     #ifdef/#ifndef/#else/#endif state of the ITP reader
 spec/Trace_FF.tla      TLC judges recorded loads (declared vs loaded library; #meta + per-line metadata rule)
+spec/MappingFile.tla   the new-style .mapping director line by line        (driver: harness/c13_mapping.py, called at the end of run)
+spec/ItpFile.tla       the content of .itp files beyond the pragma state   (driver: harness/c13_itp.py, called at the end of run)
 
 spec -> code: every state/row of the five models is rendered to concrete input and replayed into the real readers
 (read_ff, read_itp, FFDirector/ITPDirector/MappingDirector.parse_header, _tokenize, _treat_atom_prefix).
@@ -530,13 +532,31 @@ def run(tier, seed, ev, vd):
     for which, reset in (('ff', 'TRUE'), ('itp', 'TRUE'), ('map', 'FALSE')):
         cls, known = export_known(which)
         names = sorted({n for t in known for n in t} | {'nosuchsection'})
+        allfold = '(' + ' @@ '.join('%s :> %s' % (tlaval.to_tla(k), tlaval.to_tla(k.casefold())) for k in names) + ')'
+        allnames = tlaval.to_tla(set(names))
         if quick and len(names) > 14:
             keep = {'macros', 'variables', 'citations', 'moleculetype', 'link', 'modification', 'atoms', 'bonds', '!bonds', 'edges',
-                    'non-edges', 'patterns', 'features', 'molmeta', 'nosuchsection', 'dihedrals', 'impropers', 'meta'}
+                    'non-edges', 'patterns', 'features', 'molmeta', 'nosuchsection', 'dihedrals', 'impropers', 'meta', 'settle', 'SETTLE', '!SETTLE', '!settle'}
             names = [n for n in names if n in keep]
-        res = tlc.run('SectionStack', 'SPECIFICATION Spec\nINVARIANT OpIsDecl\nINVARIANT StackIsShort\n',
-                      consts={'Known': tlaval.to_tla(set(tuple(t) for t in known)), 'Names': tlaval.to_tla(set(names)),
-                              'Reset': reset, 'MaxDepth': '3'}, dump=True, timeout=1800)
+        # headers are case-insensitive: a few names also appear in other spellings (the documented one for SETTLE is upper case)
+        spell = {n: n.casefold() for n in names}
+        for n in names:
+            if n.casefold() in ('bonds', 'link', 'settle', '!settle', 'moleculetype', 'atoms', 'mapping', 'molecule', 'from', 'to'):
+                spell[n.upper()] = n.casefold()
+                spell[n.capitalize()] = n.casefold()
+        fold = '(' + ' @@ '.join('%s :> %s' % (tlaval.to_tla(k), tlaval.to_tla(v)) for k, v in sorted(spell.items())) + ')'
+        res = tlc.run('SectionStack', 'SPECIFICATION Spec\nINVARIANT OpIsDecl\nINVARIANT StackIsShort\nINVARIANT FoldedOnly\n',
+                      consts={'Known': tlaval.to_tla(set(tuple(t) for t in known)), 'Names': tlaval.to_tla(set(spell)),
+                              'Reset': reset, 'MaxDepth': '3', 'Fold': fold}, dump=True, timeout=1800)
+        unreachable = sorted(t for t in known if any(x != x.casefold() for x in t))
+        reach = tlc.run('SectionStack', 'SPECIFICATION Spec\nINVARIANT KnownReachable\n',
+                        consts={'Known': tlaval.to_tla(set(tuple(t) for t in known)), 'Names': allnames,
+                                'Reset': reset, 'MaxDepth': '0', 'Fold': allfold}, timeout=600)
+        ev.evaluations += 1
+        if reach.violated:
+            vd.violation('replay-mismatch', {'table': 'grammar', 'director': which, 'unreachable': [list(t) for t in unreachable]},
+                         'sections %r of the %s grammar can never be entered: headers are case-folded (SectionStack!KnownReachable)'
+                         % (unreachable, which))
         if res.violated:
             raise tlc.MachineryError('SectionStack(%s) violates %s' % (which, res.violated))
         ev.add_tlc('TAB SectionStack %s' % which, res)
@@ -641,6 +661,10 @@ def run(tier, seed, ev, vd):
                          '%s: %s' % (e.get('path', e.get('where')), v))
     ev.extra['shipped_ff_files'] = len(events) - len(meta_events)
     ev.extra['metadata_events'] = len(meta_events)
+    # 7. extension: the .mapping director (spec/MappingFile.tla) and the content of .itp files (spec/ItpFile.tla)
+    from . import c13_mapping, c13_itp
+    c13_mapping.run_part(tier, seed, ev, vd)
+    c13_itp.run_part(tier, seed, ev, vd)
 
 
 def replay(sc):
@@ -667,4 +691,7 @@ def selftest(seed):
     res, verdicts = judge([ev_ok, ev_bad, f_ok, f_bad])
     assert verdicts[1] == 'ok' and verdicts[2] != 'ok' and verdicts[3] == 'ok' and verdicts[4] != 'ok', verdicts
     print('selftest C13: tampered events rejected:', verdicts[2], '/', verdicts[4])
+    from . import c13_mapping, c13_itp
+    c13_mapping.selftest_part(seed)
+    c13_itp.selftest_part(seed)
     return 0
